@@ -40,6 +40,8 @@ pub enum LAct {
     Round,
     /// cache cleaning on the writer
     Clean,
+    /// the reader side loses its proxy of the writer and re-creates it; the writer keeps its proxy of the reader
+    Rematch,
 }
 
 #[derive(Clone, Debug, Serialize, Deserialize)]
@@ -302,6 +304,11 @@ pub fn run_one(run_no: usize, spec: &LRunSpec, out: &mut Vec<Value>) -> Vec<Vec<
                 l.w.cache_clean();
                 l.log.push(json!({"ev":"Clean","whist":l.w.history_sns()}));
             }
+            LAct::Rematch => {
+                l.r.unmatch_writer(0, WRITER_GUID);
+                l.r.match_writer(0, WRITER_GUID, true, 21_900);
+                l.log.push(json!({"ev":"Rematch","handed":l.handed.len()}));
+            }
         }
     }
     for _ in 0..spec.rounds_after {
@@ -347,13 +354,16 @@ pub fn random_run(rng: &mut StdRng, n_events: usize) -> LRunSpec {
             if rng.gen_bool(0.2) {
                 faults.push(Fault { at: Addr { dir: "rw".into(), k: "ACKNACK".into(), sn: rng.gen_range(1..=sn + 1), f: 0, occ: rng.gen_range(1..3) }, what: "drop".into() });
             }
-        } else {
+        } else if x < 97 {
             acts.push(LAct::Clean);
+        } else {
+            acts.push(LAct::Rematch);
         }
     }
     // a third of the runs: a late joiner that is not owed the first samples
     let pre = if rng.gen_bool(0.33) { rng.gen_range(1..5) } else { 0 };
     if pre > 0 {
+        acts.retain(|a| !matches!(a, LAct::Rematch));
         // sequence numbers in the fault addresses refer to the samples written after the match
         for f in faults.iter_mut() {
             if f.at.k != "ACKNACK" {
